@@ -1,7 +1,7 @@
 (* C20 - Stepping is functional: rejected actions have no effect. (Object non-mutation and
    repeatability are not expressible over immutable Gallina values; they are decided by the harness.) *)
 From Coq Require Import List ZArith Bool.
-From JSL Require Import Base.Res SM.Types SM.Util SM.Handler SM.Step SM.Middleware SMP.Atomic.
+From JSL Require Import Base.Res SM.Types SM.Util SM.Handler SM.Step SM.Middleware SMP.Atomic Gen.Kernels Gen.KernelsEq.
 Import ListNotations.
 
 (* a step that reports failure returns exactly the state it was given (jobs, clock, machines,
@@ -44,3 +44,15 @@ Theorem C20_env_truncates :
                /\ e_hist e' = e_hist e.
 Proof. exact env_failed_step_truncates. Qed.
 Print Assumptions C20_env_truncates.
+
+(* The validation tables of the model ARE the implementation's: Gen/Kernels.v is regenerated from
+   jobshoplab/state_machine/core/transitions.py on every run and proved equal to the model's definitions. *)
+Theorem C20_tables_are_the_code's :
+  (forall s, gen_match_state s = match_state s) /\ (forall c, gen_machine_table c = machine_table c)
+  /\ (forall c, gen_transport_table c = transport_table c)
+  /\ (forall table cur new, gen_is_valid_transition table cur new = is_valid_transition table cur new).
+Proof.
+  split; [exact gen_match_state_eq|]. split; [exact gen_machine_table_eq|]. split; [exact gen_transport_table_eq|].
+  exact gen_is_valid_transition_eq.
+Qed.
+Print Assumptions C20_tables_are_the_code's.
